@@ -24,14 +24,14 @@ Theorem C14_tombstone_absorbing :
 Proof. exact tombstone_absorbing_pf. Qed.
 
 Theorem C14_tombstone_refused :
-  forall s id x, crashed s = false -> sv s id = Some x -> s_state x = Tombstone ->
+  forall s id x, sv s id = Some x -> s_state x = Tombstone ->
     (forall p f, p_id p = id -> run_cmd s (OPut true p f) = (s, RGrpcTombstone)) /\
     (forall f, run_cmd s (OHeartbeat id f) = (s, RGrpcTombstone)).
 Proof. exact tombstone_refused_pf. Qed.
 
 (* "... unless it was declared physically destroyed": the declaration is recorded and refuses UpStore *)
 Theorem C14_destroyed_is_recorded_and_final :
-  forall s id f s', crashed s = false -> run_cmd s (ORemove id true f) = (s', ROk) ->
+  forall s id f s', run_cmd s (ORemove id true f) = (s', ROk) ->
     (exists y, sv s' id = Some y /\ s_state y = Offline /\ s_pd y = true) /\
     (forall f', run_cmd s' (OUp id f') = (s', RDestroyed)).
 Proof. exact remove_destroyed_pf. Qed.
@@ -51,71 +51,50 @@ Theorem C14_live_addresses_unique :
   forall cv p ops, addr_inv (run_state run_op (boot cv p) ops).
 Proof. exact live_addresses_unique_pf. Qed.
 
-(* ---------- durability ---------- *)
+(* ---------- durability ----------
+   (proved on the code as repaired by the fix commits 52967fc, 5702f33, fd69f18 in /repo; on the tree before them both
+   full statements were refuted, by the witnesses that are now the regression theorems below) *)
 (* "After every successful change the stored record equals the served record."
    sproj = the lifecycle/identity fields of the served record (address, state, physically-destroyed,
    labels, version, weights); stored_proj = what LoadStores rebuilds from the meta record and the two
    weight keys; agree s id : sproj s id = stored_proj s id.  Stated for every command issued in any
-   state reachable from any boot state; a command counts as successful when it reports no error
-   (check-stores reports nothing), and for the tombstone cleanup also when it stopped at an error
+   state reachable from any boot state by any history with any faults; a command counts as successful when it
+   reports no error (check-stores reports nothing), and for the tombstone cleanup also when it stopped at an error
    (what it removed before is removed on both sides). *)
 Definition C14_success_implies_stored_eq_served_full : Prop := success_full.
+Theorem C14_success_implies_stored_eq_served : C14_success_implies_stored_eq_served_full.
+Proof. exact success_full_pf. Qed.
 
-(* FALSE of the code as it is: the weights live under two keys of their own. *)
-Theorem C14_success_implies_stored_eq_served_refuted : ~ C14_success_implies_stored_eq_served_full.
-Proof. exact success_refuted_pf. Qed.
-
-(* second, independent witness: the tombstone cleanup leaves the weight keys behind *)
-Theorem C14_success_refuted_by_cleanup :
-  exists s' r, run_cmd (reach (0, 0, 0) boot1 w_cleanup) (OPut false (Payload 1 "a1" Up false [] (Some (4, 0, 0))) NoFault) = (s', r)
-    /\ r = ROk /\ sproj s' 1 <> sproj (reach (0, 0, 0) boot1 w_cleanup) 1 /\ ~ agree s' 1.
-Proof. exact success_refuted_cleanup_pf. Qed.
-
-(* TRUE with the excluded class as a hypothesis: no faulted SetStoreWeight in the history, and no new
-   registration of an id whose weight keys are still in storage (hazard_free); storage faults of
-   both kinds at every other write remain allowed. *)
-Theorem C14_success_implies_stored_eq_served_partial :
-  forall cv p ops o s' r,
-    hazard_free (boot cv p) (ops ++ [o]) -> run_cmd (reach cv p ops) o = (s', r) ->
-    (is_err r = false \/ is_clean o = true) ->
-    forall id, sproj s' id <> sproj (reach cv p ops) id -> agree s' id.
-Proof. exact success_partial_pf. Qed.
-
-(* the meta record alone (everything but the weights) is always in step, with no hypothesis at all:
-   whatever a command changes in the served state is, for that store, exactly what is in storage *)
+(* the meta record alone is in step in ANY state (no reachability needed) *)
 Theorem C14_changed_meta_is_stored :
   forall s o s' r, run_cmd s o = (s', r) -> (is_err r = false \/ is_clean o = true) ->
     forall id, sproj s' id <> sproj s id -> synced s' id.
 Proof. exact changed_meta_is_stored_pf. Qed.
 
-(* "A failed storage write leaves the served state unchanged." *)
+(* "A failed storage write leaves the served state unchanged.": any state, any command, any fault *)
 Definition C14_failed_write_keeps_served_full : Prop := failed_full.
-
-(* FALSE of the code as it is: StoreInfo.MergeLabels edits the served label structs in place before
-   anything is saved. *)
-Theorem C14_failed_write_keeps_served_refuted : ~ C14_failed_write_keeps_served_full.
-Proof. exact failed_refuted_pf. Qed.
-
-(* TRUE for every command in every state when the merge does not touch the served labels
-   (op_merge_inert: forced label updates, new stores, labels that are already there) ... *)
-Theorem C14_failed_write_keeps_served_partial :
-  forall s o s' r, run_cmd s o = (s', r) -> is_err r = true -> is_clean o = false -> op_merge_inert s o ->
-    forall id, sproj s' id = sproj s id.
-Proof. exact failed_partial_pf. Qed.
-
-(* ... and with no hypothesis: a failed command changes nothing but, at most, the labels of the one
-   store a non-forced put / label update was aimed at, and then exactly by MergeLabels' in-place effect *)
-Theorem C14_failed_write_changes_only_merged_labels :
-  forall s o s' r, run_cmd s o = (s', r) -> is_err r = true -> is_clean o = false ->
-    forall id, sproj s' id = sproj s id \/
-               exists old ls, merging o id ls /\ sv s id = Some old /\
-                              sv s' id = Some (with_cells old (snd (merge_labels (s_cells old) (s_cap old) ls))).
-Proof. exact failed_only_labels_pf. Qed.
+Theorem C14_failed_write_keeps_served : C14_failed_write_keeps_served_full.
+Proof. exact failed_full_pf. Qed.
 
 (* the cleanup that stops at a storage error: every record it touched is gone on both sides *)
 Theorem C14_partial_cleanup_consistent :
   forall s order f s' r, run_cmd s (OClean order f) = (s', r) -> forall id, sproj s' id = sproj s id \/ synced s' id.
 Proof. exact clean_error_pf. Qed.
+
+(* regressions: the three old witnesses, as they behave now *)
+Theorem C14_regression_weight_rollback :
+  let s1 := reach (0, 0, 0) boot1 [OWeight 1 3 4 (Fault 1 1 FBefore)] in
+  aget (st_lw s1) 1 = None /\
+  exists s', run_cmd s1 (ORemove 1 false NoFault) = (s', ROk) /\ agree s' 1.
+Proof. exact regression_weight_rollback. Qed.
+Theorem C14_regression_cleanup_removes_weight_keys :
+  exists s' r, run_cmd (reach (0, 0, 0) boot1 w_cleanup) (OPut false (Payload 1 "a1" Up false [] (Some (4, 0, 0))) NoFault) = (s', r)
+    /\ r = ROk /\ agree s' 1.
+Proof. exact regression_cleanup_removes_weight_keys. Qed.
+Theorem C14_regression_failed_put_keeps_labels :
+  run_cmd (boot (0, 0, 0) boot1) (OPut false (Payload 1 "a1" Up false [("zone", "z2"); ("host", "")] (Some (4, 0, 0))) (Fault 1 0 FBefore))
+  = (boot (0, 0, 0) boot1, RStorage).
+Proof. exact regression_failed_put_keeps_labels. Qed.
 
 (* ---------- non-vacuity ---------- *)
 (* a history with two stores, a fault of each kind, offline -> up -> offline -> tombstone, a refused
@@ -137,20 +116,16 @@ Example C14_nonvacuous :
   /\ map (fun b => map (fun e => (fst e, v_state (snd e))) (o_served b)) (firstn 2 (skipn 11 (run run_op (boot (0, 0, 0) boot1) ex_ops)))
      = [[(1, Up); (2, Tombstone)]; [(1, Up); (2, Tombstone)]].
 Proof. vm_compute. split; reflexivity. Qed.
-Example C14_nonvacuous_hazard_free : hazard_free (boot (0, 0, 0) boot1) ex_ops.
-Proof. vm_compute. repeat split; intros; try discriminate; auto. Qed.
-
 Print Assumptions C14_state_one_way.
 Print Assumptions C14_tombstone_absorbing.
 Print Assumptions C14_tombstone_refused.
 Print Assumptions C14_destroyed_is_recorded_and_final.
 Print Assumptions C14_bury_only_empty.
 Print Assumptions C14_live_addresses_unique.
-Print Assumptions C14_success_implies_stored_eq_served_refuted.
-Print Assumptions C14_success_refuted_by_cleanup.
-Print Assumptions C14_success_implies_stored_eq_served_partial.
+Print Assumptions C14_success_implies_stored_eq_served.
 Print Assumptions C14_changed_meta_is_stored.
-Print Assumptions C14_failed_write_keeps_served_refuted.
-Print Assumptions C14_failed_write_keeps_served_partial.
-Print Assumptions C14_failed_write_changes_only_merged_labels.
+Print Assumptions C14_failed_write_keeps_served.
 Print Assumptions C14_partial_cleanup_consistent.
+Print Assumptions C14_regression_weight_rollback.
+Print Assumptions C14_regression_cleanup_removes_weight_keys.
+Print Assumptions C14_regression_failed_put_keeps_labels.
